@@ -14,6 +14,16 @@ CLAIMED = {
         note='Trusted: z3; reals-for-floats (replay in floats with 1e-12 relative tolerance); the oracle factor table in vf/props/c17.py written '
              'from the EPANET unit definitions.',
         ref='DESIGN.md section 4, C17'),
+    'C07': dict(
+        engine='symx+amlsmt',
+        technique='the real model builder and ConditionalExpression.evaluate executed on z3 proxies (value-container evaluator); SMT (z3 NRA + uninterpreted power function) decides form, partition, low/high/middle law, continuity and two-point monotonicity of the delivered-demand curve',
+        text='For each listed (Pmin, Preq, exponent, per-junction override) configuration the residual of the registered pdd constraint is obtained as a z3 term per '
+             'branch by running the real code on symbolic pressure/demand; z3 proves for ALL pressures and demands that d = D*g(p) with g zero below Pmin, one above '
+             'Preq, the documented power law between the bands, continuous at every switching point and non-decreasing (tolerance 1e-7). Thorough adds symbolic '
+             'Pmin/Preq for exponent 0.5 (all but the two-point queries).',
+        note='Trusted: z3; reals-for-floats with 1e-7 tolerance; exponents other than 0.5/1 as an uninterpreted strictly increasing function anchored at concrete '
+             'arguments; the Newton solve that drives the residual to zero (C01 trusted base). Bound: parameter grid listed in vf/props/c07.py.',
+        ref='DESIGN.md section 4, C07'),
 }
 
 NOT_APPLICABLE = {
